@@ -185,3 +185,65 @@ if __name__ == "__main__":
                 inst, fs = r(root); print("%-22s instances=%-3d findings=%d" % (r.__name__, inst, len(fs)))
                 for f in fs: print("     ", f)
             except AnalysisError as e: print(r.__name__, "ANALYSIS-ERROR", e)
+
+def r_modelexport(root):
+    """C29.h  model_export_to_file decided by evaluation on a sample object graph (objects of classes with _tx_attrs; the file is a
+    recording stand-in): the output is the header, then for every object reachable from the model exactly one node line
+    `<id>[label="{name:Class|attrs}"]` - also for two distinct objects that compare equal, also when the model object is
+    falsy (a user class defining __len__) - one edge line per containment / reference link, labelled with the attribute
+    (and index), and the closing brace last; passing neither or both of model and repo is refused."""
+    from sa import pyeval
+    from sa.exprs import HS
+    out = []; inst = 0
+    t = load(root, E); fn = find(t, "model_export_to_file"); ps = [a.arg for a in fn.args.args]
+    if ps != ["f", "model", "repo"]: raise AnalysisError("model_export_to_file: parameters %s" % ps)
+    fns = {f_.name: f_ for f_ in t.body if isinstance(f_, ast.FunctionDef) and f_.name != "model_export_to_file"}
+    ct = load(root, "textx/const.py"); consts = {}
+    for st in ct.body:
+        if isinstance(st, ast.Assign) and isinstance(st.targets[0], ast.Name):
+            try: consts[st.targets[0].id] = pyeval.evaluate(st.value, dict(consts))
+            except (pyeval.Unsupported, pyeval.Raised): pass
+    ONE, OPT, MANY = consts.get("MULT_ONE"), consts.get("MULT_OPTIONAL"), consts.get("MULT_ONEORMORE")
+    class EqObj(HS):
+        """object of a user class with value equality: two items with the same name are equal"""
+        def __eq__(s, o): return isinstance(o, dict) and o.get(".name") == s.get(".name") and o.get(".__class__") is s.get(".__class__")
+        def __ne__(s, o): return not s.__eq__(o)
+        __hash__ = lambda s: hash(s.get(".name"))
+    class Falsy(HS):
+        def __bool__(s): return False
+        def __len__(s): return 0
+    def attr(name, mult, cont): return HS({".kind": "metaattr", ".name": name, ".mult": mult, ".cont": cont})
+    cItem = pyeval.ClassObj("Item", {"__name__": "Item", "_tx_attrs": {"name": attr("name", ONE, True), "n": attr("n", OPT, True)}})
+    cModel = pyeval.ClassObj("Model", {"__name__": "Model", "_tx_attrs": {"name": attr("name", ONE, True), "items": attr("items", MANY, True), "first": attr("first", OPT, False), "tags": attr("tags", MANY, True)}})
+    def graph(base=HS):
+        i1 = EqObj({".kind": "obj", ".__class__": cItem, ".name": "same", ".n": 1}); i2 = EqObj({".kind": "obj", ".__class__": cItem, ".name": "same", ".n": 2}); i3 = EqObj({".kind": "obj", ".__class__": cItem, ".name": "other", ".n": None})
+        m = base({".kind": "obj", ".__class__": cModel, ".name": "m", ".items": [i1, i2, i3], ".first": i2, ".tags": ["a", "b"]})
+        return m, (i1, i2, i3)
+    def run(model, repo=None):
+        buf = []
+        env = dict(consts)
+        env.update({"__functions__": fns, "__module__": t, "__maxdepth__": 30, "f": HS({".kind": "file", ".write": pyeval.PyFn(lambda s_: buf.append(s_))}), "model": model, "repo": repo,
+                    "PRIMITIVE_PYTHON_TYPES": [int, float, str, bool], "Exception": pyeval.PyFn(lambda *a: {".cls": "Exception", ".args": a})})
+        try: pyeval.run_block(fn.body, env, max_steps=40000); return "ret", "".join(buf)
+        except pyeval.Raised as r_: return "raise", r_.cls
+        except pyeval.Unsupported as u_: raise AnalysisError("model_export_to_file: outside the evaluated subset: %s" % u_)
+    W = "model_export_to_file"
+    def rep(what, ok, msg):
+        nonlocal inst
+        inst += 1; ob("C29", "C29.h", E, W, what, ok)
+        if not ok: out.append(Finding("C29", "C29.h", E, W, what, msg))
+    for what, base in (("a model with two equal but distinct items", HS), ("the same model when the model object is falsy (user class defining __len__)", Falsy)):
+        m, (i1, i2, i3) = graph(base)
+        k, txt = run(m)
+        if k != "ret": rep(what, False, "exporting %s raises %s; documented: every model can be exported" % (what, txt)); continue
+        lines = [l_ for l_ in txt.split("\n")]
+        def nodes_of(o): return [l_ for l_ in lines if l_.startswith("%d[label=" % id(o))]
+        def edges(a_, b_): return [l_ for l_ in lines if l_.startswith("%d -> %d " % (id(a_), id(b_)))]
+        okn = all(len(nodes_of(o)) == 1 for o in (m, i1, i2, i3)) and "same:Item" in nodes_of(i1)[0] and "same:Item" in nodes_of(i2)[0] and "m:Model" in nodes_of(m)[0]
+        oke = len(edges(m, i1)) == 1 and 'label="items:0"' in edges(m, i1)[0] and len(edges(m, i3)) == 1 and 'label="items:2"' in edges(m, i3)[0] and len(edges(m, i2)) == 2 and any('label="items:1"' in e_ for e_ in edges(m, i2)) and any('label="first"' in e_ for e_ in edges(m, i2))
+        okf = txt.rstrip().endswith("}") and txt.count("{") - txt.count("\\{") == txt.count("}") - txt.count("\\}") and "tags:list=[" in nodes_of(m)[0] if nodes_of(m) else False
+        rep(what, okn and oke and okf, "exporting %s writes %d node line(s) for the model, %s for the three items (two of them equal by value, all distinct objects) and the edges model->items %s, model->first %d; documented: one node line per object (identity decides, not equality), one edge per link labelled attribute[:index], the list of primitive tags inside the model's label, balanced braces with the closing brace last" % (what, len(nodes_of(m)), [len(nodes_of(o)) for o in (i1, i2, i3)], [len(edges(m, o)) for o in (i1, i2, i3)], len([e_ for e_ in edges(m, i2) if 'label="first"' in e_])))
+    m, _i = graph()
+    k1, _t1 = run(None, None); k2, _t2 = run(m, HS({".kind": "repo"}))
+    rep("neither or both of model and repo", k1 == "raise" and k2 == "raise", "model_export_to_file(f) %s and model_export_to_file(f, model, repo) %s; documented: both are refused" % ("raises" if k1 == "raise" else "writes a file", "raises" if k2 == "raise" else "writes a file"))
+    return inst, out
